@@ -20,8 +20,9 @@ from sim import rng, shrink as shrinkmod
 from sim.canon import digest
 
 ROOT = os.path.dirname(os.path.dirname(os.path.abspath(__file__)))
-REPLAY_DIR = os.path.join(ROOT, 'replays')
-EVID_DIR = os.path.join(ROOT, 'evidence')
+REPLAY_DIR = os.environ.get('VERIF_REPLAY_DIR') or \
+    os.path.join(ROOT, 'replays')
+EVID_DIR = os.environ.get('VERIF_EVID_DIR') or os.path.join(ROOT, 'evidence')
 KNOWN_FILE = os.path.join(ROOT, 'known_findings.json')
 
 
